@@ -110,6 +110,34 @@ def _linalg_args(lem, rng):
         if rng.integers(0, 6) == 0 and n > 0:
             c[int(rng.integers(0, n))] = int(rng.integers(0, 8))
         return {'s': s_, 'c': c, 'k': int(rng.integers(0, n + 1))}
+    if name in ('ordg_selext', 'ordp_selext'):
+        N = int(rng.integers(0, 4)); n = int(rng.integers(0, 2 * N + 1))
+        sel = gens.bits(rng, 2 * N + 1)
+        sel2 = sel * rng.integers(1, 4, size=2 * N + 1)
+        if rng.integers(0, 5) == 0 and n > 0:
+            sel2[int(rng.integers(0, n))] ^= 1          # sometimes a different selection: requires filter it
+        sel2[n:] = gens.bits(rng, 2 * N + 1 - n)
+        return {'sel': sel, 'sel2': sel2, 'G': gens.bits(rng, 2 * N + 1, 2 * N), 'P': rng.integers(0, 4, size=2 * N + 1), 'n': n, 'N': N, 'c': int(rng.integers(0, max(2 * N, 1)))}
+    if name in ('member_expect', 'sample_expect_one'):
+        N = int(rng.integers(1, 4)); r = int(rng.integers(0, N + 1))
+        gs, ps = gens.rand_tableau(rng, N)
+        sel = gens.bits(rng, N); sel[:r] = 0
+        if name == 'member_expect':
+            from contracts import spec_pauli as sp_
+            obs = np.array([sp_.OrdG(sel, gs, N, k) for k in range(2 * N)], dtype=np.int64)
+            pobs = int(sp_.OrdP(sel, gs, ps, N, N))
+            if rng.integers(0, 6) == 0:
+                pobs = (pobs + 2) % 4                      # sometimes the wrong sign: the requires filter it
+            return {'gs': gs, 'ps': ps, 'sel': sel, 'obs': obs, 'pobs': pobs, 'r': r, 'N': N}
+        return {'gs': gs, 'ps': ps, 'c': sel[r:].copy(), 'r': r, 'N': N}
+    if name in ('ordg_nosel', 'ordg_slice', 'ordp_slice'):
+        N = int(rng.integers(1, 4)); r = int(rng.integers(0, N + 1)); n = int(rng.integers(0, N - r + 1))
+        gs = gens.bits(rng, 2 * N, 2 * N); ps = rng.integers(0, 4, size=2 * N)
+        if name == 'ordg_nosel':
+            m = int(rng.integers(0, N + 1))
+            sel = gens.bits(rng, N + 1); sel[:m] = 0
+            return {'sel': sel, 'G': gs, 'P': ps, 'm': m, 'N': N, 'c': int(rng.integers(0, 2 * N))}
+        return {'c': gens.bits(rng, N - r + 1), 'gs': gs, 'ps': ps, 'r': r, 'N': N, 'n': n, 'col': int(rng.integers(0, 2 * N))}
     if name in ('rank_swap', 'rank_rowadd', 'rank_echelon'):
         nr, nc = int(rng.integers(1, 5)), int(rng.integers(1, 5))
         A = gens.bits(rng, nr, nc)
